@@ -18,7 +18,7 @@ CLAIMED = {
    ref="DESIGN.md §3 C08"),
  "C12": dict(
    text="All 64 combinations of the six ignore-source flags x 7 explicit options (none, --ignore, --ignore-file, --filter, --filter-file, --exts, --fs-events) x generated projects (VCS dir, .gitignore, .ignore, nested .gitignore, .git/info/exclude, global git ignore and global watchexec ignore under a pinned HOME/XDG, paths hit only by built-in defaults), in-process through hook H2 (real clap parsing and normalisation, real WatchexecFilterer). One probe per source: rejected exactly when the flag set does not remove that source (table transcribed from the flag docs); probes for the explicit option: verdict identical under all flag sets and equal to the documented effect.",
-   note="Enumeration is complete over flags x options (exhaustive: true) for the generated project shapes; the e2e leg through --only-emit-events is not built. For positive filters only the invariance of the explicit probes is asserted.",
+   note="Enumeration is complete over flags x options (exhaustive: true) for the generated project shapes; leg cli-e2e runs the real CLI process (wx) in --only-emit-events mode on generated (flag set, option, project) triples with real file creations and the same expectation tables (64 cases quick, 1800 thorough), covering get_args() and the config wiring that hook H2's args_from repeats rather than calls. For positive filters only the invariance of the explicit probes is asserted.",
    technique="exhaustive configuration matrix with a documentation-derived table oracle and a metamorphic (flag-invariance) relation",
    ref="DESIGN.md §3 C12"),
  "C18": dict(
@@ -27,13 +27,13 @@ CLAIMED = {
    technique="proptest generated argument vectors / shell descriptions with an observational round-trip oracle through real child processes",
    ref="DESIGN.md §3 C18"),
  "C01": dict(
-   text="Conservation ledger over a full in-process Watchexec in real time: 1-4 producer tasks send uniquely numbered synthetic events (priority low..urgent, table-driven filter verdict pass/reject/error, tag shapes incl. path, signal, keyboard EOF and empty), handler sync/async taking 0-80 ms, queue size 1/2/8/4096, gaps placed relative to the throttle. Every event owed (send returned Ok) that passes, is urgent or is empty is delivered exactly once; rejected/errored ones never; nothing twice; urgent and empty events never reach the filter and others at most once; no empty batch. All assertions are about what was delivered, not when.",
-   note="The quit is requested only once everything owed has arrived (or 1.5 s + 3 x throttle have passed); a failure must reproduce 3 times to count. fs-event -> queue conversion is exercised with the mock watcher in C15's watcher-fault leg; the real inotify/poll leg is not built.",
+   text="Conservation ledger over a full in-process Watchexec in real time: 1-4 producer tasks send uniquely numbered synthetic events (priority low..urgent, table-driven filter verdict pass/reject/error, tag shapes incl. path, signal, keyboard EOF and empty), handler sync/async taking 0-80 ms, queue size 1/2/8/4096, gaps placed relative to the throttle. Every event owed (send returned Ok) that passes, is urgent or is empty is delivered exactly once; rejected/errored ones never; nothing twice; urgent and empty events never reach the filter and others at most once; no empty batch. All assertions are about what was delivered, not when. Leg real-fs: real native (inotify) and poll watchers on generated scratch trees with create/write/rename/remove/mkdir scripts and run-time path-set changes: every change under a configured path is named by a delivered event, nothing outside is reported. Leg real-sources: a separate probe process with the real signal and keyboard sources receives generated sequences of OS signals, typed bytes and stdin EOF under a recording filter: each signal in exactly one handler event unless the filter rejected it, one EOF event iff the keyboard source is on, no empty batch.",
+   note="The quit is requested only once everything owed has arrived (or 1.5 s + 3 x throttle + one handler duration per event have passed); a failure must reproduce 3 times to count. In the real-sources leg the same signal kind is never sent twice within 300 ms (standard signals do not queue); poll-watcher writes wait for the next clock second (notify compares second-granularity mtimes).",
    technique="proptest generated producer schedules with a conservation-ledger invariant (real time, schedule-independent oracle)",
    ref="DESIGN.md §3 C01"),
  "C02": dict(
-   text="Generated arrival patterns (single event, burst inside the window, straddling its end, continuous accepted stream for 3T, continuous rejected/erroring stream for 6T after one accepted event, urgent event inside a 0.6-2 s window, zero throttle, throttle changed inside a window or while idle, mixed priorities with slow handlers) with producer-side before/after stamps and handler entry stamps. Always asserted (one-sided): a batch without an urgent member is never handed over earlier than the throttle in effect after its first event was sent. With an idle handler and 250 ms slack: bounded delay after the window (incl. under rejected streams: no starvation), urgent flush, zero throttle waits for nothing; for T >= 100 ms: events sent well inside the window are not split into a later batch.",
-   note="Upper bounds are real-time assertions: 250 ms slack (jitter observed < 5 ms), must reproduce 3 times; counted as timing anomaly otherwise.",
+   text="Generated arrival patterns (single event, burst inside the window, straddling its end, continuous accepted stream for 3T, continuous rejected/erroring stream for 6T after one accepted event, urgent event inside a 0.6-2 s window, zero throttle, throttle changed inside a window or while idle, mixed priorities with slow handlers) with producer-side before/after stamps and handler entry stamps. Always asserted (one-sided): a batch without an urgent member is never handed over earlier than the throttle in effect after its first event was sent. With an idle handler and 250 ms slack: bounded delay after the window (incl. under rejected streams: no starvation), urgent flush, zero throttle waits for nothing; for T >= 100 ms: events sent well inside the window are not split into a later batch. Work-based starvation criterion (no clock): a recording filter counts rejected events the worker consumes later than 20 ms after the window (started when it took the batch's first accepted event) ended and before handing the batch over; the unchanged worker takes at most one, 4+ (paced stream) or 50+ (leg rejected-flood: 1-3 tasks on other worker threads sending rejected events as fast as a queue of capacity 1-16384 takes them) is a violation.",
+   note="Upper bounds are real-time assertions: 250 ms slack (jitter observed < 5 ms), must reproduce 3 times; counted as timing anomaly otherwise. Starvation is decided by counting consumed events, not by time, so load cannot fake it.",
    technique="proptest generated arrival patterns with one-sided and slack-bounded timing oracles (real time)",
    ref="DESIGN.md §3 C02"),
  "C15": dict(
@@ -43,7 +43,7 @@ CLAIMED = {
    ref="DESIGN.md §3 C15"),
  "C13": dict(
    text="The production sources::fs::worker driven on a paused current-thread runtime with a recording, fault-injecting notify::Watcher substituted through hook H1. Bounded-exhaustive over all sequences of a 12-op alphabet (2-path universe: set/clear/recursion-mode flip, kind change, watch/unwatch failure, during-apply path and kind change, irrelevant change) up to length 3 (quick) / 4 (thorough) x {settled, burst}, then random sequences over a 4-path universe. 'During-apply' ops make a change land inside the worker's read-apply window deterministically (the mock performs it from within the k-th watch/unwatch call). After changes stop: registered set with modes == configured set (minus paths whose latest attempt was failed by injection), active kind == configured kind, empty set releases the watcher, one RuntimeError per failed attempt naming the path, no unwatch of an unregistered path; after a retry round the set is exact.",
-   note="Mock watcher instead of inotify/poll (behavioural variant with real files not built). Handler-reconfiguration (no deadlock, old invocation unaffected) is checked in C15's in-process runner. One open known finding: recursion-mode flip after a failed unwatch (bookkeeping keyed on (path, mode)).",
+   note="Legs exhaustive/random use the mock watcher (H1) to see the registered set itself; leg behavioural uses real native and poll watchers on real files (a write under a configured path is reported, under a dropped path is not). Handler-reconfiguration (no deadlock, old invocation unaffected) is checked in C15's in-process runner. One open known finding: recursion-mode flip after a failed unwatch (bookkeeping keyed on (path, mode)).",
    technique="bounded-exhaustive + proptest stateful sequences with fault injection against a model of the configured set (virtual time)",
    ref="DESIGN.md §3 C13"),
  "C03": dict(
@@ -77,13 +77,13 @@ CLAIMED = {
    technique="exhaustive finite tables + proptest on generated directory trees against a reference predicate",
    ref="DESIGN.md §3 C20"),
  "C04": dict(
-   text="History invariant over the time-stamped call log of simulated children installed through the public spawn hook (production job task, paused tokio clock): at every spawn, every earlier child of the job has had its exit status collected. Bounded-exhaustive over all sequences of the 11 lifecycle controls up to length 3 (quick) / 4 (thorough) x {burst, settled} x 4 child classes, then random sequences (<=14 steps) with gaps, graces and child reaction delays drawn from one value pool so ties at timer deadlines are frequent, spawn/kill/signal failure injection, a raw ContinueTryGracefulRestart control and a generated select! seed; plus a multi-thread leg: the controls of a generated sequence sent by 2-4 concurrent tasks on a multi-thread runtime with real millisecond timers, same invariant.",
-   note="Virtual-time legs: one schedule per (sequence, timing, select! seed) on tokio's current-thread scheduler. Multi-thread leg: whatever interleavings the OS produces in 200 (quick) / 4000 (thorough) runs, not controlled or enumerated. The simulated child replaces process-wrap's child object (a real /bin/true is still spawned underneath).",
+   text="History invariant over the time-stamped call log of simulated children installed through the public spawn hook (production job task, paused tokio clock): at every spawn, every earlier child of the job has had its exit status collected. Bounded-exhaustive over all sequences of the 11 lifecycle controls up to length 3 (quick) / 4 (thorough) x {burst, settled} x 4 child classes, then random sequences (<=14 steps) with gaps, graces and child reaction delays drawn from one value pool so ties at timer deadlines are frequent, spawn/kill/signal failure injection, a raw ContinueTryGracefulRestart control and a generated select! seed; plus a multi-thread leg: the controls of a generated sequence sent by 2-4 concurrent tasks on a multi-thread runtime with real millisecond timers, same invariant; plus a real-process leg: 3-13 controls from 1-3 concurrent tasks on real vhelper processes (plain/grouped/session) with an exclusive flock per job and an un-reaped-predecessor probe (spawn hook + /proc) as witnesses; the raw ContinueTryGracefulRestart control is in the alphabet.",
+   note="Virtual-time legs: one schedule per (sequence, timing, select! seed) on tokio's current-thread scheduler. Multi-thread leg: whatever interleavings the OS produces in 200 (quick) / 4000 (thorough) runs, not controlled or enumerated. The simulated child replaces process-wrap's child object (a real /bin/true is still spawned underneath). In the real-process leg a lost child object is killed on drop, so a second live process exists for microseconds: the deciding witness there is a spawn hook that looks in /proc for un-reaped earlier helpers of the job right before every spawn.",
    technique="bounded-exhaustive + proptest stateful sequences over the Job API, invariant over the simulated-child call history (virtual time)",
    ref="DESIGN.md §3 C04"),
  "C06": dict(
    text="Timed-history oracle computed from the case alone (signal number, grace, child reaction delay, follower offsets) against the simulated child's call log in exact virtual time: signal first and at once, no kill before t+g, kill+reap exactly at t+g if still running, normal-priority followers held back until the process ended, replacement spawned exactly once and not before the end, ticket instants. Generated: all three graceful controls in every prior job state, graces {0,1,50,100,1000,10000} ms, reactions at g-1/g/g+1 and elsewhere, 0-5 followers of every priority at offsets around the deadline.",
-   note="Exact ties (reaction == grace, exit in the arrival instant) accept either order; signals nix cannot represent are outside the domain; real-process leg not built.",
+   note="Exact ties (reaction == grace, exit in the arrival instant) accept either order; for signals nix cannot represent only 'some catchable signal first' is asserted. Leg real-process: the same three controls on real vhelper processes through process-wrap on real time, asserted as jitter-proof evidence (seen dead before the deadline / own end record missing; seen alive 1.5 s after it; wrong first signal; follower or ticket before the process was gone; replacement count != 1; replacement finds the lock held or the old process un-reaped); reactions within 50 ms of the deadline are not judged there.",
    technique="proptest scenario generation with a timed-history (metamorphic/time-bound) oracle on virtual time",
    ref="DESIGN.md §3 C06"),
  "C07": dict(
